@@ -1,6 +1,6 @@
 //! This module implements the normalized `Duration` records.
 
-use core::{num::NonZeroU128, ops::Add};
+use core::{cmp::Ordering, num::NonZeroU128, ops::Add};
 
 use num_traits::AsPrimitive;
 
@@ -600,9 +600,40 @@ impl NormalizedDurationRecord {
         // This division can be implemented as if constructing Normalized Time Duration Records for the denominator
         // and numerator of total and performing one division operation with a floating-point result.
         // 15. Let roundedUnit be ApplyUnsignedRoundingMode(total, r1, r2, unsignedRoundingMode).
-        let rounded_unit =
-            IncrementRounder::from_signed_num(total, options.increment.as_extended_increment())?
-                .round(options.rounding_mode);
+        // Decided exactly on the fraction (destEpochNs - startEpochNs) / (endEpochNs - startEpochNs) of the window: the double
+        // `total` cannot tell a nanosecond within a year, so a value just past the middle would be taken for a tie.
+        let window = end_epoch_ns - start_epoch_ns;
+        let covered = (dest_epoch_ns - start_epoch_ns) * window.signum();
+        let window = window.abs();
+        let rounded_unit = if covered <= 0 {
+            r1
+        } else if covered >= window {
+            r2
+        } else {
+            use crate::options::UnsignedRoundingMode;
+            let r1_is_even = (r1 / i128::from(options.increment.get())) % 2 == 0;
+            let up = match options
+                .rounding_mode
+                .get_unsigned_round_mode(sign != Sign::Negative)
+            {
+                UnsignedRoundingMode::Zero => false,
+                UnsignedRoundingMode::Infinity => true,
+                half => match (2 * covered).cmp(&window) {
+                    Ordering::Less => false,
+                    Ordering::Greater => true,
+                    Ordering::Equal => match half {
+                        UnsignedRoundingMode::HalfZero => false,
+                        UnsignedRoundingMode::HalfInfinity => true,
+                        _ => !r1_is_even,
+                    },
+                },
+            };
+            if up {
+                r2
+            } else {
+                r1
+            }
+        };
 
         // 16. If roundedUnit - total < 0, let roundedSign be -1; else let roundedSign be 1.
         // 19. Return Duration Nudge Result Record { [[Duration]]: resultDuration, [[Total]]: total, [[NudgedEpochNs]]: nudgedEpochNs, [[DidExpandCalendarUnit]]: didExpandCalendarUnit }.
